@@ -7,7 +7,7 @@
 From Coq Require Import List ZArith QArith Qabs Qminmax Bool String Reals Qreals.
 From Interval Require Import Xreal Interval.
 From Gst Require Import lib.QAux lib.LinAlgQ C03.Table C03.IEval C03.Model C03.Spec C03.Valid C03.Witness C03.gen.CovTable
-  C03.Proofs C03.Proofs_basic C03.Proofs_psd C03.Proofs_aniso C03.Proofs_encl C03.Proofs_real.
+  C03.Proofs C03.Proofs_basic C03.Proofs_psd C03.Proofs_aniso C03.Proofs_encl C03.Proofs_real C03.Proofs_tri.
 Import ListNotations.
 Local Open Scope Q_scope.
 
@@ -204,6 +204,12 @@ Theorem C03_psd_nugget : forall n (s : Q) (H : fmat),
   psd n (fun i j => s * cor_nugget (H i j)).
 Proof. exact psd_nugget. Qed.
 
+(* the triangle structure on every regular 1-D grid: n points, spacing = range / m, any n and any m >= 1
+   (normalised distance of nodes i and j = |i - j| / m) *)
+Theorem C03_psd_triangle_1d : forall n m, (0 < m)%nat -> psd n (fun i j => cor_triangle (grid_h m i j)).
+Proof. exact psd_triangle_grid. Qed.
+Print Assumptions C03_psd_triangle_1d.
+
 (* ---------------------------------------------------------------------------------------------- the refutation *)
 (* The 'Penta' closed form is not positive semi-definite in R^2: seven points with integer mutual distances,
    range 32 (all normalised distances rational: the matrix is exact) and a vector x with x^T K x < 0. *)
@@ -232,13 +238,10 @@ Proof.
 Qed.
 Example C03_nonvacuous_psd :
   (* a Gram matrix that is not diagonal, and its relabelling with a repeated point *)
-  let B := fun i l : nat => inject_Z (Z.of_nat (i + 2 * l)) in
-  psd 3 (fun i j => sumn 2 (fun l => B i l * B j l)) /\
-  psd 4 (fun i j => (fun a b => sumn 2 (fun l => B a l * B b l)) (Nat.modulo i 3) (Nat.modulo j 3)) /\
-  sumn 2 (fun l => B 0%nat l * B 1%nat l) == 6.
+  psd 3 ex_gram /\ psd 4 (fun i j => ex_gram (Nat.modulo i 3) (Nat.modulo j 3)) /\ ex_gram 0%nat 1%nat == 6.
 Proof.
-  cbv zeta. split; [apply psd_gram|split].
-  - apply (psd_relabel 4 3 (fun i => Nat.modulo i 3)); [intros; apply Nat.mod_upper_bound; discriminate|apply psd_gram].
+  split; [exact (psd_gram 3 2 ex_B)|split].
+  - exact (psd_relabel 4 3 (fun i => Nat.modulo i 3) ex_gram (fun i _ => Nat.mod_upper_bound i 3 (Nat.neq_succ_0 2)) (psd_gram 3 2 ex_B)).
   - vm_compute. reflexivity.
 Qed.
 Example C03_nonvacuous_enclosure :
@@ -255,9 +258,13 @@ Proof.
   - intros i _. rewrite Nat.eqb_refl. reflexivity.
   - intros i j _ _ Hij. destruct (Nat.eqb_spec i j); [contradiction|discriminate].
 Qed.
+Example C03_nonvacuous_triangle :
+  (* 4 nodes, range = 3 spacings: correlations 1, 2/3, 1/3, 0 *)
+  map (fun j => Qred (cor_triangle (grid_h 3 0 j))) [0; 1; 2; 3]%nat = [1; 2#3; 1#3; 0].
+Proof. vm_compute. reflexivity. Qed.
 Example C03_nonvacuous_variogram :
   (* spherical structure, range 4, sill 3: variogram mode at distance 2 = 3 * (1 - 5/16) *)
   let c := {| cv_type := 2; cv_param := 0; cv_scales := [4; 4]; cv_rot := [[1; 0]; [0; 1]]; cv_sill := [[3]]; cv_field := 4; cv_cov0 := 0 |} in
-  cova_eval c 2 {| m_asvario := true; m_unitary := false; m_order := 0; m_active := None |} 0 0 [0; 0] [2; 0]
+  model_eval [c] 2 {| m_asvario := true; m_unitary := false; m_order := 0; m_active := None |} 0 0 [0; 0] [2; 0]
   = Some (33 # 16, 33 # 16).
 Proof. vm_compute. reflexivity. Qed.
